@@ -201,10 +201,10 @@ def chain(old_us: int, c1: int, c2: int, c3: int, v21: bool, rev_at: int) -> boo
 # ---------------------------------------------------------------- SCO identifier-contributing properties are locked (dict and object)
 def sco_locked(form: int, v5: bool, prop: int, to_none: bool) -> bool:
     """
-    pre: 0 <= form <= 1 and 0 <= prop <= 3
+    pre: 0 <= form <= 1 and 0 <= prop <= 5
     post: _
     """
-    form, prop, v5, to_none = pick(form, 2), pick(prop, 4), pickb(v5), pickb(to_none)
+    form, prop, v5, to_none = pick(form, 2), pick(prop, 6), pickb(v5), pickb(to_none)
     with Native():
         ok = run_sco_case(form, v5, prop, to_none)
     V.reached()
@@ -212,20 +212,28 @@ def sco_locked(form: int, v5: bool, prop: int, to_none: bool) -> bool:
 
 
 def run_sco_case(form, v5, prop, to_none):
-    f = stix2.v21.File(name="data.txt", size=3, mime_type="text/plain") if v5 else \
-        stix2.v21.File(id="file--" + gen.UU, name="data.txt", size=3, mime_type="text/plain")
+    """2.1 SCOs become versionable when they carry (custom) created / modified / revoked; with a deterministic (UUIDv5) id every change to an
+    id-contributing property -- altering, removing, or ADDING one that was absent -- is refused; other changes give a new version with the same id"""
+    common = dict(name="data.txt", size=3, mime_type="text/plain", created="2020-01-01T00:00:00.000Z", modified="2020-01-01T00:00:00.000Z", revoked=False, allow_custom=True)
+    f = stix2.v21.File(**common) if v5 else stix2.v21.File(id="file--" + gen.UU, **common)
     data = f if form == 0 else json.loads(f.serialize())
-    name = ("name", "hashes", "size", "mime_type")[prop]
-    val = None if to_none else {"name": "other.txt", "hashes": {"MD5": "0" * 32}, "size": 4, "mime_type": "a/b"}[name]
-    contributing = name in ("name", "hashes")       # STIX 2.1 section 6.7: file id contributing properties incl. name, hashes
+    name = ("name", "hashes", "size", "mime_type", "parent_directory_ref", "extensions")[prop]
+    val = None if to_none else {"name": "other.txt", "hashes": {"MD5": "0" * 32}, "size": 4, "mime_type": "a/b", "parent_directory_ref": "directory--" + gen.UU,
+                                "extensions": {"ntfs-ext": {"sid": "s"}}}[name]
+    contributing = name in ("name", "hashes", "parent_directory_ref", "extensions")       # STIX 2.1 section 6.7: file id contributing properties
+    if to_none and name not in ("name", "size", "mime_type"):
+        return True                                  # removing what is not there is no change
+    if to_none and name == "name" and not v5:
+        return True                                  # (a file needs name or hashes: the removal is refused for that reason)
     try:
-        versioning.new_version(data, **{name: val})
+        n = versioning.new_version(data, allow_custom=True, **{name: val})
     except UnmodifiablePropertyError:
         return v5 and contributing
     except (TypeError, STIXError, ValueError):
-        # SCOs are not versionable objects (no created/modified): any loud refusal is acceptable, silent acceptance of a locked change is not
-        return True
-    return not (v5 and contributing)
+        return False                                 # this object IS versionable: a legal change must not be refused
+    if v5 and contributing:
+        return False                                 # silently accepted: the id no longer matches the id-contributing content
+    return n["id"] == f.id and (n.get(name) is None) == to_none
 
 
 # ---------------------------------------------------------------- L2/L4: every versionable class, real objects, clock positions around old modified
